@@ -12,6 +12,31 @@ CHECKS = {
         "Trusted: the reference walker (28/29/30/31 rule + leap rule + 1970-01-01 = day 0 = Thursday), rustc arithmetic. Triples outside the grid (years beyond -400..10400 other than the listed extremes) are not enumerated.",
         "DESIGN.md §4 C01",
     ),
+
+    "C07": (
+        "exhaustive enumeration: all dates x critical times, all seconds / microseconds of the day (thorough: all 8.64e10 µs), full validity grid, against i128 floor arithmetic",
+        "Every date crossed with every critical time of day (both sides of midnight, noon and each rounding midpoint, plus a seed-derived time) is combined into a timestamp on the real code and split again; every second of the day, every microsecond at selected seconds (thorough: every microsecond of the day) and the complete (h,mi,s,µs) validity grid including u32 extremes go through the time-of-day constructors; results are compared with integer floor arithmetic and the calendar walker, and Eq/Ord/Hash are checked along the enumeration order.",
+        "Trusted: reference walker and i128 arithmetic; std DefaultHasher. Timestamps at times of day outside the critical set are covered only through the seed-derived time per date.",
+        "DESIGN.md §4 C07",
+    ),
+    "C09": (
+        "exhaustive enumeration: all dates x month offsets (-40..=40 quick, -400..=400 thorough, plus range-reaching and limit offsets) x 3 types x add/sub against floor-division month arithmetic",
+        "For every date, every offset of the bound and both directions, on Date, Timestamp (rotating critical times) and OracleDate, the real result is compared with floor-division month arithmetic: same day of month and time of day, or an error exactly when the target month lacks the day or the year leaves 1..9999; last-day-of-month is checked for every date on the three types.",
+        "Trusted: reference month arithmetic (12*y+m-1+k by floor division) and month-length rule. Offsets outside the stated bound are covered only by the per-date range-reaching / limit / seed-derived offsets.",
+        "DESIGN.md §4 C09",
+    ),
+    "C10": (
+        "exhaustive enumeration: all dates x 12 units (Date), all dates x critical times x 12 units (Timestamp, OracleDate), every second of selected days, against per-unit boundary predicates",
+        "Truncation of every date (and every date at every critical time, and every second of 29 selected days) for each of the 12 units on the three types is compared with 'the latest boundary <= input', where boundaries come from one independent predicate per unit evaluated by the day-counting walker; idempotence, never-forward and monotonicity are asserted as well; failure is required exactly when no boundary exists at or after 0001-01-01.",
+        "Trusted: the per-unit boundary predicates in refmodel/calendar.rs and the walker.",
+        "DESIGN.md §4 C10",
+    ),
+    "C11": (
+        "exhaustive enumeration: same spaces as C10 with the Round methods, against boundary predicates plus the documented midpoints",
+        "Rounding of every date / every date at every critical time (both sides of 12:00, :30, :30s) / every second of selected days, 12 units, three types, compared with T/N from the independent boundary predicates and the documented midpoint per unit; boundary inputs must be unchanged; monotonicity is asserted along the sweep (except ISO year); failure required exactly when the chosen boundary is outside the range. Shortened weeks only require membership in {T, N}, monotonicity and Date/Timestamp agreement.",
+        "Trusted: boundary predicates, midpoint table typed from the trait documentation. One open known finding (F2, round_century for years divisible by 100) is suppressed by signature.",
+        "DESIGN.md §4 C11",
+    ),
 }
 
 NOT_BUILT_REASON = "check not built yet in this round (work in progress; planned in DESIGN.md §4) — not claimed until its machinery exists and passes on the unchanged tree"
